@@ -599,8 +599,9 @@ static int asyncClient_calculateRequestId(KSI_AsyncClient *c, KSI_uint64_t *id, 
 	}
 
 	do {
-		/* Check if the cache is full. */
-		if ((c->options[KSI_ASYNC_OPT_REQUEST_CACHE_SIZE]) == (c->pending + c->received + 1)) {
+		/* Check if the cache is full. The configuration request (or pushed configuration) held in its own slot
+		 * is counted as pending / received, but does not occupy the request cache. */
+		if ((c->options[KSI_ASYNC_OPT_REQUEST_CACHE_SIZE]) <= (c->pending + c->received - (c->serverConf != NULL ? 1 : 0) + 1)) {
 			res = KSI_ASYNC_REQUEST_CACHE_FULL;
 			goto cleanup;
 		}
